@@ -39,10 +39,33 @@ let bytes_out (o : byte list outcome) : string =
   | Ok b -> "ok " ^ hex_of_bytes b
   | Err -> "err" | Panic -> "panic" | OutOfFuel -> "outoffuel"
 
+(* Statements of the theorems in Properties/C0x.v evaluated on the case (a test of the
+   statements, not a proof: a failing law is reported as a mismatch of its own). *)
+let laws_checked = ref 0
+let dec_seen = ref 0
+let law name b = incr laws_checked; if not b then failwith ("law " ^ name ^ " fails")
+let out_map f = function Ok v -> Ok (f v) | Err -> Err | Panic -> Panic | OutOfFuel -> OutOfFuel
+let enc_laws sch m v =
+  if wt_msg sch m v then begin
+    let e1 = emit sch true m v and e0 = emit sch false m v in
+    law "C02.det_eq_ref" (ref_marshal sch m v = e1);
+    law "C04.size_eq_len" (msg_size sch m v = n_of_int (List.length e1) && msg_size sch m v = n_of_int (List.length e0));
+    law "C05.canon_emit" (emit sch true m (canon v) = e1);
+    (match pulsar_unmarshal sch false m VNil e0 with
+     | Ok r -> law "C01.roundtrip_nondet" (r = norm sch m v); law "C06.accepted_wt" (wt_msg sch m r)
+     | _ -> law "C01.roundtrip_nondet_ok" false);
+    (match pulsar_unmarshal sch false m VNil e1 with
+     | Ok r -> law "C01.roundtrip_det" (canon r = canon (norm sch m v))
+     | _ -> law "C01.roundtrip_det_ok" false);
+    law "C14.emit_unknown_last"
+      (match v with VMsg (s, u) -> e1 = emit sch true m (VMsg (s, [])) @ u | _ -> true)
+  end
+
 let codec_eval (fn : string) (args : string list) : string =
   match fn, args with
   | "ENC", [ sid; mid; v ] ->
     let sch = Ctx.schema sid and m = nat_of_int (int_of_string mid) and v = Sexp.val_of_string v in
+    enc_laws sch m v;
     bytes_out (pulsar_marshal sch true m v) ^ " size=" ^ dec_of_n (msg_size sch m v)
   | "ENCN", [ sid; mid; v ] ->
     let sch = Ctx.schema sid and m = nat_of_int (int_of_string mid) and v = Sexp.val_of_string v in
@@ -51,7 +74,13 @@ let codec_eval (fn : string) (args : string list) : string =
     let sch = Ctx.schema sid and m = nat_of_int (int_of_string mid) in
     let discard = String.contains flags 'd' in
     let init = if init = "-" then VNil else Sexp.val_of_string init in
-    (match pulsar_unmarshal sch discard m init (bytes_of_hex b) with
+    let bs = bytes_of_hex b in
+    let res = pulsar_unmarshal sch discard m init bs in
+    incr dec_seen;
+    if init = VNil && !dec_seen mod 4 = 0 then
+      law "C14.discard_strip" (pulsar_unmarshal sch true m VNil bs = out_map strip_unknown (pulsar_unmarshal sch false m VNil bs));
+    (match res with Ok r when init = VNil || wt_msg sch m init -> law "C06.accepted_wt" (wt_msg sch m r) | _ -> ());
+    (match res with
      | Ok v -> "ok " ^ Sexp.string_of_val v
      | Err -> "err" | Panic -> "panic" | OutOfFuel -> "outoffuel")
   | _ -> raise Not_found
